@@ -68,6 +68,7 @@ class Src:
     def __init__(self, elem, log):
         self.pulls = 0
         self.elem = elem
+        self.log = log
         log.append(self)
 
     def __iter__(self):
@@ -79,6 +80,8 @@ class Src:
             return self.pulls
         if self.elem == 'etuple':
             return ()
+        if self.elem == 'esrc':
+            return Src('int', self.log)       # an endless sequence of endless sequences
         return iter(())
 
 
@@ -476,7 +479,8 @@ def judge_bound(res, c, out, hist, what):
 
 
 def describe_sweep(c):
-    v = {'int': 'endless ints', 'etuple': 'endless empty lists', 'eiter': 'endless empty iterators'}.get(c.get('elem'), '')
+    v = {'int': 'endless ints', 'etuple': 'endless empty lists', 'eiter': 'endless empty iterators',
+         'esrc': 'endless endless sequences'}.get(c.get('elem'), '')
     if c['target'] is None:
         return '%s with lambdas returning endless sequences' % c['fn']
     return '%s with %s%s as parameter `%s` (lambdas: %s)' % (
@@ -539,7 +543,7 @@ def shape_cases(rng, tier):
                         continue          # with N = 0 any non-empty wrapper is refused first; covered by wi = 0 and below
                     out.append(dict(N=N, L=L, kind=kind, wrap=wi, v=v))
     # random nested values with random limits
-    n_rand = 150 if tier == 'quick' else 3000
+    n_rand = 150 if tier == 'quick' else 12000
     for _ in range(n_rand):
         out.append(dict(N=rng.choice(NS[:4] + [3]), L=None, kind='random', wrap=None, v=c10.gen_value(rng, 3, False, 0.3, 0.8)))
     return out
@@ -853,7 +857,8 @@ def run(env, res):
     # ---- S + E + Q in the worker pool
     targets, nfuncs = sweep_targets()
     cases = []
-    NS_ = NS if tier == 'quick' else NS + [3, 10]
+    NS_ = NS if tier == 'quick' else NS + [3, 4, 10, 20]
+    elems = ('int', 'etuple', 'eiter') if tier == 'quick' else ('int', 'etuple', 'eiter', 'esrc')
     for t in targets:
         lams = ['true', 'false', 'ident'] if t['lambdas'] else ['none']
         if t['target'] is None:
@@ -862,7 +867,7 @@ def run(env, res):
                                   wrap='direct', lam='src'))
             continue
         for N in NS_:
-            for elem in ('int', 'etuple', 'eiter'):
+            for elem in elems:
                 for wrap in (['direct'] if t['direct'] else []) + (['in_list'] if t['wrapped'] else []):
                     for lam in lams:
                         cases.append(dict(op='sweep', part='S', fn=t['fn'], payload=t['payload'], target=t['target'], N=N,
